@@ -101,6 +101,25 @@ REJECT = [
     ("reject/iterator_internal_names", "r := [1, 2]~ @ (x: int) -> int { return x } $]; (res, con)"),
 ]
 
+# One-statement scopes (round j, C06-j1: a "fast path" that folds a single-statement block in the enclosing layer): each
+# construct holds exactly ONE declaration, of a name that is a parameter of the (enclosing) function - neither a literal nor a
+# run-time cell, so the folding pass knows it only inside a call - and the name is used after the construct.
+ONE = [
+    ("block", "{ x := {H:0} }"),
+    ("nested_block", "{ { x := {H:0} } }"),
+    ("block_fn_decl", "{ x := () -> int { return {H:0} } }"),
+    ("block_destructuring", "{ (x, y) := ({H:0}, {H:1}) }"),
+    ("if", "if x > 0 { x := {H:0} }"),
+    ("if_else", "if x < 0 { x := {H:1} } else { x := {H:0} }"),
+    ("while", "k := mut 0; while *k < 1 { k += 1; x := {H:0} }"),
+    ("while_single", "k := mut 0; while *k < 1 { x := { k += 1; {H:0} } }"),
+    ("for", "for e in [1]~ { x := {H:0} }"),
+    ("ifset", "if x: int = {H:0} { }"),
+    ("ifset_body", "if q: int = {H:0} { x := q }"),
+    ("match_arm", "match {H:5} { 5 => { x := {H:0} }, => { }, }"),
+    ("match_binder", "match {H:0} { x: int => { }, }"),
+]
+
 
 def _fill(prog, hidden):
     import re
@@ -125,6 +144,18 @@ def fam_scope(tier, seed, extra=()):
             out.append(Case(f"scope/{sid}/{'hidden' if hidden else 'literal'}", p, Rejected(), what="must be rejected: the name is not in scope"))
             out.append(Case(f"scope/{sid}/{'hidden' if hidden else 'literal'}/fn", "main := () -> any { r__ := { " + p + " }; return r__ }; main()", Rejected(),
                             what="must be rejected: the name is not in scope (inside a function)"))
+    for sid, stmt in ONE:
+        for hidden in (False, True):
+            c = _fill(stmt, hidden)
+            tag = "hidden" if hidden else "literal"
+            out.append(Case(f"scope/one/{sid}/{tag}/closure",
+                            "make := (x: int) -> () -> int { return () -> int { " + c + " return x; }; }; f := make(7); g := make(8); (f(), g(), f())", (7, 8, 7),
+                            what="one-statement scope inside a closure; the name is the enclosing function's parameter"))
+            out.append(Case(f"scope/one/{sid}/{tag}/fn", "f := (x: int) -> int { " + c + " return x; }; (f(7), f(8))", (7, 8),
+                            what="one-statement scope inside a function; the name is its parameter"))
+            out.append(Case(f"scope/one/{sid}/{tag}/nested_fn",
+                            "outer := (x: int) -> int { inner := () -> int { " + c + " return x + 1; }; return inner() + x; }; (outer(7), outer(1))", (15, 3),
+                            what="one-statement scope inside a nested function declaration"))
     # REPL-style: one interpreter, several steps
     steps = [
         (["x := 1", "{ x := 2; x }", "x"], [1, 2, 1]),
